@@ -81,7 +81,8 @@ Record acfg := {
   a_par : bool;
   a_use_secret : bool;
   a_iss_supported : bool;
-  a_cookie_strict : bool              (* GetLoginCookie rejects records lacking state/nonce/verifier/redirect_uri *)
+  a_cookie_strict : bool;             (* GetLoginCookie rejects records lacking state/nonce/verifier/redirect_uri *)
+  a_seg_prefix : bool                 (* MatchingPath matches ingress paths on segment boundaries *)
 }.
 
 Record areq := { r_host : bytes; r_xfh : bytes; r_path : bytes;
@@ -90,20 +91,24 @@ Record areq := { r_host : bytes; r_xfh : bytes; r_path : bytes;
 Fixpoint mem (x : bytes) (l : list bytes) : bool :=
   match l with [] => false | y :: r => beq x y || mem x r end.
 
+(* hasPathPrefix (segment boundary) / strings.HasPrefix (before the fix) *)
+Definition path_prefix (seg : bool) (req p : bytes) : bool :=
+  if seg then beq req p || has_prefix req (p ++ [47]) else has_prefix req p.
+
 (* Ingresses.MatchingPath: longest configured non-empty path that prefixes the request path *)
-Fixpoint matching_path_from (paths : list bytes) (reqpath : bytes) (best : bytes) : bytes :=
+Fixpoint matching_path_from (seg : bool) (paths : list bytes) (reqpath : bytes) (best : bytes) : bytes :=
   match paths with
   | [] => best
   | p :: r =>
     let best' := match p with
                  | [] => best
-                 | _ => if has_prefix reqpath p && Nat.ltb (length best) (length p) then p else best
+                 | _ => if path_prefix seg reqpath p && Nat.ltb (length best) (length p) then p else best
                  end in
-    matching_path_from r reqpath best'
+    matching_path_from seg r reqpath best'
   end.
 
 Definition matching_path (c : acfg) (q : areq) : bytes :=
-  matching_path_from (map i_path (a_ingresses c)) (r_path q) [].
+  matching_path_from (a_seg_prefix c) (map i_path (a_ingresses c)) (r_path q) [].
 
 (* MatchingIngress iterates a Go map: any ingress satisfying the test may be returned *)
 Definition ingress_matches (c : acfg) (q : areq) (i : ingress) : bool :=
